@@ -174,7 +174,6 @@ func TestVerif_C10(t *testing.T) {
 	r.Finish()
 }
 
-
 // vC10Measure finds, by presenting honest certificates with fewer and fewer signers to verifyFinalization, the
 // smallest signer count accepted over a key vector, and applies the intersection bound to it.
 func vC10Measure(t *testing.T, r *verifkit.Run, h *verifHistory, ts uint64, rng *rand.Rand) {
@@ -188,7 +187,8 @@ func vC10Measure(t *testing.T, r *verifkit.Run, h *verifHistory, ts uint64, rng 
 	if len(accepted) == 0 {
 		return
 	}
-	node := h.node(t)
+	node, closeNode := h.nodeOwned()
+	defer closeNode()
 	chain := &Chain{node: node, ChainId: accepted[rng.Intn(len(accepted))].Id, State: &ChainState{}}
 	type vec struct {
 		name string
